@@ -136,6 +136,13 @@ pub fn gen(prop: &str, tier: &str, seed: u64, out: &mut Vec<String>) {
                         for sink in SINKS {
                             for fl in ["sync", "fsm"] {
                                 out.push(format!("hist {fl} {sink} {b} {bs} {fill} {head}/0:0:$/-;{tail}/0:0:{cut}/-;{tail}/0:0:$/-;0/0:0:$/-"));
+                                // a write to the BACKING of an io outboard fails during the first download (every index on
+                                // small trees), then the same request is retried: it must repair whatever was left behind
+                                if sink.ends_with("Io") {
+                                    for k in 0..(2 * ng).min(if t { 12 } else { 5 }) {
+                                        out.push(format!("hist {fl} {sink} {b} {bs} {fill} 0/0:0:$/b{k};0/0:0:$/-"));
+                                    }
+                                }
                             }
                         }
                     }
